@@ -46,6 +46,7 @@ type Loc struct {
 	Typ   types.Type // type of the designated location (after Path)
 	Struct types.Type // lField: the struct type the field belongs to
 	Field  string
+	Global *ssa.Global
 }
 
 // State: versions of every mutable thing on the current path.
